@@ -312,6 +312,19 @@ static bool addVocabularySibling(QDomDocument &doc, QDomElement el, Rng &rng)
     return false;
 }
 
+// same tag, other namespace: what a parser that filters children by (tag, namespace) must step over
+template<class Rng>
+static bool addForeignTwin(QDomDocument &doc, QDomElement el, Rng &rng)
+{
+    if (el == doc.documentElement()) return false;
+    static const char *NS[] = { "urn:example:foreign", "jabber:client", "", "urn:xmpp:sm:3" };
+    auto twin = el.cloneNode(rng() % 2 == 0).toElement();
+    twin.setAttribute(u"xmlns"_s, QString::fromLatin1(NS[rng() % 4]));
+    if (rng() % 2) el.parentNode().insertAfter(twin, el);
+    else el.parentNode().insertBefore(twin, el);
+    return true;
+}
+
 struct Mutator {
     std::mt19937_64 &rng;
     const std::vector<Seed> &seeds;
@@ -463,10 +476,14 @@ struct Mutator {
             addVocabularySibling(doc, el, rng);
             break;
         }
+        case 17: {  // a twin of the element in a foreign namespace, before or after it
+            addForeignTwin(doc, el, rng);
+            break;
+        }
         }
     }
 };
-static const int N_OPS = 17;
+static const int N_OPS = 18;
 
 struct ParserStats {
     long admitted = 0, parsed = 0, fixpoint = 0;
@@ -507,6 +524,8 @@ static void runC02(int argc, char **argv)
                 if (it == g_vocab.end() || it->second.size() < 2) continue;
                 for (int j = 0; j < sibPer; j++) sib.push_back({ si, k, j });
             }
+            // ... and a foreign twin next to every element
+            for (int k = 1; k < els.size() && k < 60; k++) sib.push_back({ si, k, -1 });
         }
     }
     long sibCases = 0;
@@ -520,9 +539,9 @@ static void runC02(int argc, char **argv)
             parseDoc(seeds[sc.seed].xml, doc);
             QList<QDomElement> els;
             collectElements(doc.documentElement(), els);
-            if (!addVocabularySibling(doc, els[sc.element], rng)) continue;
+            if (sc.j < 0 ? !addForeignTwin(doc, els[sc.element], rng) : !addVocabularySibling(doc, els[sc.element], rng)) continue;
             sibCases++;
-            opTotal[16]++;
+            opTotal[sc.j < 0 ? 17 : 16]++;
         } else {
         parseDoc(seeds[(size_t(c) * 16 + size_t(worker) + rng() % 3) % seeds.size()].xml, doc);
         int nops = (rng() % 8 == 0) ? 0 : 1 + int(rng() % 3);
@@ -545,7 +564,7 @@ static void runC02(int argc, char **argv)
         for (size_t i = 0; i < reg.size(); i++) {
             auto &e = reg[i];
             g_currentWhat = e.name.toUtf8() + " check";
-            alarm(120);
+            alarm((g_heavy ? 120 : 30) * qMax(1, qEnvironmentVariableIntValue("VERIF_ALARM_SCALE")));
             if (e.hasCheck && !e.check(el)) continue;
             stats[i].admitted++;
             applications++;
